@@ -46,6 +46,11 @@ pub fn plan(tier: &str, seed: u64) -> Vec<Batch> {
             lo += 4;
         }
     }
+    // the handle's file renamed to (or unlinked at) a path whose /proc/<pid>/fd/<n> text is exactly
+    // 4093..4095 bytes long - the longest a link body can be
+    for uni in unis.iter() {
+        v.push(Batch { check: "C09".into(), phase: "deep".into(), uni: uni.clone(), seed, lo: 0, hi: deep_cases().len() as u64, fresh: false, tier: tier.into(), extra: Value::Null });
+    }
     // callers with a private descriptor table (unshare(CLONE_FILES)): one universe each,
     // never reused (the caller thread keeps its private table)
     for uni in unis.iter() {
@@ -435,6 +440,46 @@ fn history(rng: &mut Rng, target: &str, seq: u64) -> Vec<Mutation> {
     v
 }
 
+/// (length of the absolute path after the rename, unlink afterwards?, flags, C facade)
+pub fn deep_cases() -> Vec<(usize, bool, i32, bool)> {
+    let mut v = Vec::new();
+    for (len, unlink) in [(4095usize, false), (4094, false), (4093, false), (4085, true), (4084, true), (4086, true), (2000, false)] {
+        for (fl, cf) in [(libc::O_RDONLY, false), (libc::O_PATH, true), (libc::O_RDWR, false)] {
+            v.push((len, unlink, fl, cf));
+        }
+    }
+    v
+}
+
+/// 15 nested directories with 255-byte names below the root: "/mnt/w/root/" + 15 * 256 = 3852 bytes
+fn deep_dir() -> String {
+    let mut p = String::from("root");
+    for _ in 0..15 {
+        p.push('/');
+        p.push_str(&"D".repeat(255));
+    }
+    p
+}
+
+pub fn deep_case(uni: &UniCfg, idx: u64) -> Case {
+    let (len, unlink, flags, cfac) = deep_cases()[idx as usize % deep_cases().len()];
+    let facade = if cfac { Facade::C } else { Facade::Rust };
+    let mut w = world();
+    w.push(Entry::dir(&deep_dir()));
+    // absolute path = "/mnt/w/" + deep_dir + "/" + name
+    let used = "/mnt/w/".len() + deep_dir().len() + 1;
+    let dst = if len > used { format!("{}/{}", deep_dir(), "f".repeat(len - used)) } else { format!("root/dir/{}", "f".repeat(len - "/mnt/w/root/dir/".len())) };
+    let mut muts = vec![Mutation::Rename { src: "root/dir/file".into(), dst: dst.clone() }];
+    if unlink {
+        muts.push(Mutation::Unlink { path: dst });
+    }
+    let mut c = Case::new("C09", "deep", uni.clone());
+    c.world = Some(w);
+    c.jobs = vec![vec![OpSpec::new(Op::Resolve { path: "dir/file".into(), nofollow: false }).store(1).facade(facade), OpSpec::new(Op::Sup { muts }), OpSpec::new(Op::Reopen { slot: 1, flags }).facade(facade)]];
+    c.extra = json!({"target": "dir/file", "symlink_handle": false, "flags": flags, "newfd": -1, "history": true, "overmount": false, "attacker_inside_reopen": false, "path_length_after_rename": len, "unlinked": unlink});
+    c
+}
+
 fn overmounts(rng: &mut Rng) -> Vec<Mutation> {
     match rng.below(6) {
         0 => vec![Mutation::MountTmpfs { path: "/proc".into() }],
@@ -673,6 +718,8 @@ pub fn run(u: &mut Universe, b: &Batch, st: &mut Stats) {
                 Some(c) => c,
                 None => return,
             }
+        } else if b.phase == "deep" {
+            deep_case(&b.uni, idx)
         } else {
             gen_case(b.seed, idx, &b.uni)
         };
@@ -739,7 +786,7 @@ pub fn finalise(tier: &str, seed: u64, res: coord::CheckResult) -> i32 {
         tier,
         seed,
         "exploration",
-        "one evaluation = one history: resolve a handle (file, directory, fifo, symlink handle, character device) -> attacker operations on the handle's path (rename, replace by a same-named file/dir/symlink, unlink, rename an ancestor; 0-3 of them) -> renumber the handle's descriptor (0, 1, 2, 3, 5, 63, 150, 199 or unchanged) -> optionally mount tmpfs / a foreign directory over /proc, /proc/self, /proc/self/fd, /proc/thread-self -> reopen with a flag set from the power set of {access modes, O_APPEND, O_DIRECTORY, O_NOFOLLOW, O_CLOEXEC, O_TRUNC, O_NOATIME, O_CREAT, O_EXCL, O_TMPFILE, O_NOCTTY}; compared with the baseline (same handle type and flags, nothing in between); universes: K and E with private procfs, and with fsopen refused / the whole new mount API refused (non-private handles); fd-mount phase: a crafted directory whose entries are links named like descriptor numbers (all leading to a foreign file), or another process's fd directory, bind-mounted on the caller thread's own /proc/<pid>/task/<tid>/fd (the kernel refuses mounts on the fd/<n> magic-links themselves), before the reopen starts and at every system-call window of it (25 cases x 6 universes): with a private procfs the result is the baseline's, otherwise the call fails or returns the handle's inode, never the file the planted link leads to; ofd phase: a descriptor that is itself the result of a reopen is reopened again with the same or other flags (Rust/C): the result has its own file offset; private-table phase: the whole scenario runs in a caller thread with a private descriptor table (unshare(CLONE_FILES)) that opens the target itself, has the supervisor plant a decoy at the same descriptor number in the thread-group leader's table (or leave that number empty there), reopens through libpathrs (4 targets x flag sets x Rust/C, 60 cases per universe kind) and compares inodes itself: the answer must come from the calling thread's table; for the cases with a decoy every (system call of the reopen, errno of its catalogue) placement is enumerated as well (the call may fail, it never returns another inode); non-trivial = a history with at least one attacker / renumbering / mount step; distinct = hash of the case",
+        "one evaluation = one history: resolve a handle (file, directory, fifo, symlink handle, character device) -> attacker operations on the handle's path (rename, replace by a same-named file/dir/symlink, unlink, rename an ancestor; 0-3 of them) -> renumber the handle's descriptor (0, 1, 2, 3, 5, 63, 150, 199 or unchanged) -> optionally mount tmpfs / a foreign directory over /proc, /proc/self, /proc/self/fd, /proc/thread-self -> reopen with a flag set from the power set of {access modes, O_APPEND, O_DIRECTORY, O_NOFOLLOW, O_CLOEXEC, O_TRUNC, O_NOATIME, O_CREAT, O_EXCL, O_TMPFILE, O_NOCTTY}; compared with the baseline (same handle type and flags, nothing in between); universes: K and E with private procfs, and with fsopen refused / the whole new mount API refused (non-private handles); fd-mount phase: a crafted directory whose entries are links named like descriptor numbers (all leading to a foreign file), or another process's fd directory, bind-mounted on the caller thread's own /proc/<pid>/task/<tid>/fd (the kernel refuses mounts on the fd/<n> magic-links themselves), before the reopen starts and at every system-call window of it (25 cases x 6 universes): with a private procfs the result is the baseline's, otherwise the call fails or returns the handle's inode, never the file the planted link leads to; deep phase: the handle's file is renamed to a path of exactly 4093 / 4094 / 4095 bytes (15 nested directories with 255-byte names), or to one of 4084..4086 bytes and unlinked (the descriptor's path text then ends in ' (deleted)'), 21 cases x 6 universes; ofd phase: a descriptor that is itself the result of a reopen is reopened again with the same or other flags (Rust/C): the result has its own file offset; private-table phase: the whole scenario runs in a caller thread with a private descriptor table (unshare(CLONE_FILES)) that opens the target itself, has the supervisor plant a decoy at the same descriptor number in the thread-group leader's table (or leave that number empty there), reopens through libpathrs (4 targets x flag sets x Rust/C, 60 cases per universe kind) and compares inodes itself: the answer must come from the calling thread's table; for the cases with a decoy every (system call of the reopen, errno of its catalogue) placement is enumerated as well (the call may fail, it never returns another inode); non-trivial = a history with at least one attacker / renumbering / mount step; distinct = hash of the case",
         res,
         Map::new(),
         vec![
@@ -747,7 +794,7 @@ pub fn finalise(tier: &str, seed: u64, res: coord::CheckResult) -> i32 {
             "'new open file description' is checked through differing F_GETFL (kcmp is not available in this kernel)".into(),
         ],
         false,
-        &|b, run| if b.phase == "private-table" || b.phase == "ofd" || b.phase == "fd-mount" { None } else { Some(gen_case(b.seed, run, &b.uni)) },
+        &|b, run| if b.phase == "private-table" || b.phase == "ofd" || b.phase == "fd-mount" || b.phase == "deep" { None } else { Some(gen_case(b.seed, run, &b.uni)) },
     )
     .exit_code
 }
